@@ -9,3 +9,15 @@ CLAIMED['C14'] = (
     'CrossHair+z3 symbolic execution of the real dataReceived/receive reassembly loops and security.TwistedWrapper over fully symbolic byte streams (two-chunk == one-chunk == reference parser lemma)',
     'Confirmed over all paths for all byte values within the stream-length bound; induction over chunks is a paper argument on top of the discharged two-chunk lemma.',
     _BASE_NOTE, 'DESIGN.md C14')
+_SCHED = 'bounded-history symbolic exploration of the real scheduler/farm code with CrossHair+z3 (event schedule = z3 integer selectors, exhausted within the bound; monitors after every event)'
+_SCHED_TXT = 'Every event history within the stated length/shape bound is covered (Confirmed over all paths per obligation); nothing is claimed for longer histories or larger graphs.'
+CLAIMED['C01'] = (_SCHED, _SCHED_TXT, _BASE_NOTE, 'DESIGN.md section 3 C01')
+CLAIMED['C03'] = (_SCHED, _SCHED_TXT, _BASE_NOTE, 'DESIGN.md section 3 C03')
+CLAIMED['C04'] = (_SCHED, _SCHED_TXT + ' Quiescence is checked as bounded progress (<= 2N+2 further dispatches).', _BASE_NOTE, 'DESIGN.md section 3 C04')
+CLAIMED['C05'] = (_SCHED, _SCHED_TXT, _BASE_NOTE, 'DESIGN.md section 3 C05')
+CLAIMED['C17'] = (
+    'CrossHair+z3 symbolic execution of SearchFacade._divide/_scrub over unbounded integer run ids (denotation lemma); bounded symbolic exploration of shelve find/facet against a brute-force oracle',
+    'Denotation lemma confirmed over all paths for all integers within the expression-size bound.', _BASE_NOTE, 'DESIGN.md section 4 C17')
+CLAIMED['C20'] = (
+    'AST->SMT translation of schedule._delay (z3 Ints + calendar model, re-checked with z3 4.8.12 and cvc5) for every clock instant 1970-2100; CrossHair+z3 bounded histories of defer/periodics',
+    'Kernel clauses are single unsat queries over all instants 1970-2100 and all accepted moments; translator validated against the real function on every run.', _BASE_NOTE, 'DESIGN.md section 5 C20')
